@@ -129,6 +129,21 @@ def run(ch, build):
                          "what": "authentication algorithm %d, confirmed by the BMC, made the library panic" % scn["alg"]})
         elif res["err"] == "nil":
             ch.violation(desc, {"scenario": scn, "what": "a session was returned for the unimplemented authentication algorithm %d" % scn["alg"]})
+    # ... and every integrity and confidentiality algorithm number: the handshake completes (they only matter afterwards);
+    # the implemented ones aside, the result is an error - never a panic, never a session
+    iscns = [{"bmc": conn.default_bmc(seed=9, suites=[[100, 1, i, 1]]), "timeout_ms": 40, "alg": ("integrity", i),
+              "steps": [hs.open_step(suites=[(1, i, 1)])]} for i in range(64) if i not in (1, 2, 4)]
+    iscns += [{"bmc": conn.default_bmc(seed=9, suites=[[100, 1, 1, c]]), "timeout_ms": 40, "alg": ("confidentiality", c),
+               "steps": [hs.open_step(suites=[(1, 1, c)])]} for c in range(64) if c != 1]
+    for scn, out in zip(iscns, conn.run_scenarios(iscns)):
+        res = out["steps"][0]
+        ch.note_case("c12-unknown-%s" % scn["alg"][0], str(scn["alg"][1]))
+        desc = {"kind": "c12-unknown-alg", "alg": list(scn["alg"])}
+        if res.get("panic") or res["err"] == "panic":
+            ch.violation(dict(desc, kind="panic"), {"scenario": scn, "panic": res.get("panic"),
+                         "what": "%s algorithm %d, confirmed by the BMC, made the library panic" % scn["alg"]})
+        elif res["err"] == "nil":
+            ch.violation(desc, {"scenario": scn, "what": "a session was returned for the unimplemented %s algorithm %d" % scn["alg"]})
     # --- several establishments on ONE connection while the BMC's advertised set changes in between: every
     # establishment must choose against what the BMC advertises at that moment, not against anything seen earlier ---
     seqs = []
